@@ -93,10 +93,6 @@ Fixpoint cr_lines (ls : list text) : list text :=
   end.
 Definition canon_lines (t : text) : list text := cr_lines (split_lines t).
 
-(* every LF of a text becomes CR LF (what a CRLF transport does to the armored message) *)
-Fixpoint to_crlf (t : text) : text :=
-  match t with [] => [] | c :: r => if c =? 10 then 13 :: 10 :: to_crlf r else c :: to_crlf r end.
-
 (* decidable defect classes of the cleartext path *)
 Definition blank (c : Z) : bool := (c =? 32) || (c =? 9).
 Definition ends_blank (l : text) : bool := match rev l with c :: _ => blank c | [] => false end.
